@@ -235,7 +235,13 @@ impl Map64 {
         if addr > vm_layout().heap_end {
             return None;
         }
-        Some(addr >> vm_layout().space_shift_64())
+        let index = addr >> vm_layout().space_shift_64();
+        // The per-space tables have `MAX_SPACES` entries. The address range up to `heap_end` spans one
+        // more space-sized extent than that (space 0 is unused), so the last extent belongs to no space.
+        if index >= MAX_SPACES {
+            return None;
+        }
+        Some(index)
     }
 
     fn is_space_start(base: Address) -> bool {
